@@ -337,6 +337,32 @@ def g_powers(ctx, rng, i):
     sh = np.eye(n, dtype=int)
     sh[0, 1] = int(rng.integers(1, 3))
     big.append(g.Transformation(sh))
+    # maps next to the identity (tiny translations / rotations) raised to large powers and composed in long chains: nothing may be dropped
+    eps_v = np.array([gen.pick(rng, [4e-9, 2.5e-9, -7e-9])] + [0.0] * (dim - 1))
+    t_eps = g.translation(*eps_v.tolist())
+    for k in (2 ** 31, 2 ** 24 + 3, 10 ** 6):
+        try:
+            img = (t_eps ** k) * g.Point(*([0.0] * dim))
+            got = np.real(np.asarray(img.normalized_array, dtype=complex))[:-1]
+            ok = np.allclose(got, k * eps_v, rtol=1e-6, atol=1e-12)
+            ctx.judge("pow", bool(ok), [eps_v, k], what=f"translation({eps_v[0]:g}, ...) ** {k} moves the origin to {got.tolist()} instead of {(k * eps_v).tolist()}", op="__pow__ (near identity)",
+                      feat={"near_identity": True}, nontrivial=True)
+        except Exception as e:  # noqa: BLE001
+            ctx.judge("pow", False, [eps_v, k], what=f"translation(tiny) ** {k} raised {type(e).__name__}: {str(e)[:80]}", op="__pow__ (near identity)", feat={"near_identity": True, "exc": type(e).__name__})
+    try:
+        c_ = t_eps
+        for _ in range(30):
+            c_ = c_ * c_  # repeated doubling: 2**30 steps
+        got = np.real(np.asarray((c_ * g.Point(*([0.0] * dim))).normalized_array, dtype=complex))[:-1]
+        ctx.judge("word", bool(np.allclose(got, 2 ** 30 * eps_v, rtol=1e-6, atol=1e-12)), [eps_v], what=f"30 doublings of a tiny translation move the origin to {got.tolist()} instead of {(2 ** 30 * eps_v).tolist()}",
+                  op="composition (near identity)", feat={"near_identity": True}, nontrivial=True)
+        s_big = g.Transformation(_rand_matrix(rng, n, 0))
+        p_ = g.Point(gen.finite_point(rng, dim))
+        lhs, rhs = (s_big * t_eps) * p_, s_big * (t_eps * p_)
+        r_ = X.proj_residual(np.asarray(lhs.array, dtype=complex), np.asarray(rhs.array, dtype=complex))
+        ctx.judge("word", r_ <= 1e-12, [eps_v], what=f"(s*t)*p differs from s*(t*p) for a tiny translation t (residual {r_:.3g})", op="composition (near identity)", feat={"near_identity": True}, nontrivial=True)
+    except Exception as e:  # noqa: BLE001
+        ctx.judge("word", False, [eps_v], what=f"composition with a tiny translation raised {type(e).__name__}: {str(e)[:80]}", op="composition (near identity)", feat={"near_identity": True, "exc": type(e).__name__})
     # unipotent maps whose nilpotent part does not square to zero (a shear combined with a translation), integer and float
     un = np.eye(n) + np.triu(gen.coords(rng, (n, n), 2, "int"), 1)
     for j in range(n - 1):
